@@ -239,7 +239,7 @@ func isDupTest(info *types.Info, e ast.Expr) bool {
 			return false
 		}
 		fn := astx.Callee(info, call)
-		return fn != nil && fn.Name() == "LastPostMessage"
+		return fn != nil && fname(fn) == "LastPostMessage"
 	}
 	isCMI := func(x ast.Expr) bool {
 		se, ok := ast.Unparen(x).(*ast.SelectorExpr)
@@ -386,7 +386,7 @@ func (c *Ctx) c05A3() {
 		if fn == nil || fn.Pkg() == nil || fn.Pkg().Path() != pathRaft {
 			continue
 		}
-		if fn.Name() != "NewRaft" && fn.Name() != "GetConfiguration" {
+		if fname(fn) != "NewRaft" && fname(fn) != "GetConfiguration" {
 			continue
 		}
 		if len(call.Args) != 6 {
